@@ -914,6 +914,10 @@ class Explorer(object):
                 return getattr(recv, m)(*args)
             if m in ('findall', 'split') and len(args) == 1 and isinstance(args[0], str):
                 return getattr(recv, m)(args[0])
+            if m == 'split' and len(args) == 2 and isinstance(args[0], str) and isinstance(args[1], int) and not isinstance(args[1], bool):
+                return recv.split(args[0], args[1])
+            if m == 'sub' and len(args) == 2 and isinstance(args[0], str) and isinstance(args[1], str) and '\\' not in args[0]:
+                return recv.sub(args[0].replace('\\', '\\\\'), args[1])
             if m == 'finditer' and args and isinstance(args[0], str) and all(isinstance(a, int) for a in args[1:]):
                 return list(recv.finditer(*args))
             raise Undecided('regex method {} on {!r} is outside the abstract interpreter'.format(m, args), node)
